@@ -346,7 +346,7 @@ fn leg_disconnect(ctx: &Ctx, out: &mut Out, mode: Mode) {
             continue;
         }
         let inputs = inputs_of(&t.src);
-        for p in [Place::Bare, Place::ReadOffset(1), Place::WriteOffset(7), Place::DirtyOutput, Place::ThenReread] {
+        for p in [Place::Bare, Place::ReadOffset(1), Place::WriteOffset(7), Place::DirtyOutput, Place::ThenReread, Place::DirtyAt(1), Place::DirtyAt(2), Place::DirtyAt(3), Place::DirtyAt(4), Place::DirtyAt(5), Place::DirtyAt(6), Place::DirtyAt(7)] {
             let label = || format!("{} at {:?}", t.describe(), p);
             if !ctx.begin(leg, &label) {
                 continue;
